@@ -9,12 +9,14 @@ RULES = ["chainedhotstuff", "simplehotstuff", "fasthotstuff"]
 
 
 class Play:
-    def __init__(self, rng, scheme, n, r, rules, cache, adversarial):
+    def __init__(self, rng, scheme, n, r, rules, cache, adversarial, fixed=None):
         self.rng, self.scheme, self.n, self.r, self.rules = rng, scheme, n, r, rules
+        self.fixed = fixed
         self.agg = 1 if rules == "fasthotstuff" or rng.random() < 0.2 else 0
         self.adv = adversarial
         self.q = quorum(n)
-        self.L = [f"cfg {scheme} {n} cache={cache} agg={self.agg}", f"replica {r} rules={rules}", "start"]
+        self.L = [f"cfg {scheme} {n} cache={cache} agg={self.agg}",
+                  f"replica {r} rules={rules}" + (f" leader=fixed:{fixed}" if fixed else ""), "start"]
         self.cur, self.curqc, self.curview = "G", "genesis", 0   # highest certified block known to the puppets
         self.view = 1
         self.k = 0
@@ -23,7 +25,7 @@ class Play:
         self.pending_agg = None
 
     def leader(self, v):
-        return v % self.n + 1
+        return self.fixed if self.fixed else v % self.n + 1
 
     def fresh(self, p):
         self.k += 1
@@ -382,7 +384,10 @@ class ReplicaFam(Family):
                 r = rng.randrange(1, n + 1)
                 rules = RULES[k % 3]
                 adv = rng.random() < 0.7
-                p = Play(rng, scheme, n, r, rules, rng.choice([0, 0, 10, 100]), adv)
+                fixed = None
+                if self.focus == "c09" and rng.random() < 0.6:
+                    fixed = r if rng.random() < 0.8 else rng.randrange(1, n + 1)
+                p = Play(rng, scheme, n, r, rules, rng.choice([0, 0, 10, 100]), adv, fixed)
                 lines = p.run(rng.randrange(3, 9 if scheme != "bls12" else 6))
                 if self.focus == "c10" and k % 4 != 0:
                     lines = to_wire(lines, rng)
